@@ -1,12 +1,15 @@
-import YaclibModel.Proofs.CoSharedMutex
+import YaclibModel.Proofs.CoSharedMutexS_twLoad_1
+import YaclibModel.Proofs.CoSharedMutexS_twLoad_2
+import YaclibModel.Proofs.CoSharedMutexS_twLoad_3
 namespace Yaclib.CoSharedMutex
 
-set_option maxHeartbeats 4000000 in
 theorem inv_twLoad {cfg : Cfg} {s : State} (hi : Inv cfg s) (c : Cid) (sawZero : Bool) (h : s.pc c = .idle) (ht : s.todo c ≠ []) (ho : curOp s c = .wr ∨ curOp s c = .tryWr) :
     Inv cfg ((doTwLoad s c sawZero)) := by
-  cases hi
-  cases sawZero
-  · by_cases ht' : curOp s c = .tryWr <;> simp only [doTwLoad, failW, ht', Bool.false_eq_true, ↓reduceIte] <;> sm_auto [List.count_le_length]
-  · simp only [doTwLoad, ↓reduceIte]; sm_auto [List.count_le_length]
+  have hzd : sawZero = false ∨ sawZero = true := by cases sawZero <;> simp
+  rcases hzd with hz | hz
+  · by_cases ht' : curOp s c = .tryWr
+    · exact inv_twLoad_1 hi c sawZero h ht ho hz ht'
+    · exact inv_twLoad_2 hi c sawZero h ht ho hz ht'
+  · exact inv_twLoad_3 hi c sawZero h ht ho hz
 
 end Yaclib.CoSharedMutex
